@@ -716,9 +716,9 @@ pub fn compiled_batch(seed: u64, n_hist: usize, n_fam: usize) -> Batch {
         body: DeclBody::Enum {
             sorted: false,
             steps: vec![],
-            variants: (0..131)
+            variants: (0..300)
                 .map(|k| match k {
-                    5 | 127 | 128 | 130 => Variant { name: format!("C{k}"), shape: Shape::Tuple, transient: false, record: Record { fields: vec![f("field0", Ty::U8)], steps: vec![] } },
+                    5 | 127 | 128 | 130 | 255 | 256 | 257 | 299 => Variant { name: format!("C{k}"), shape: Shape::Tuple, transient: false, record: Record { fields: vec![f("field0", Ty::U8)], steps: vec![] } },
                     129 => Variant { name: format!("C{k}"), shape: Shape::Struct, transient: false, record: Record { fields: vec![f("s", Ty::Str)], steps: vec![Step::Added { name: "s".into(), default: Val::str("") }] } },
                     _ => Variant { name: format!("C{k}"), shape: Shape::Unit, transient: false, record: Record { fields: vec![], steps: vec![] } },
                 })
